@@ -355,6 +355,39 @@ def _shard(arg):
     kind, name = arg[0], arg[1]
     res = Result()
     mods = _load()
+    if kind == "private-subclasses":
+        # dali.command._CommandTracker documents: "Commands that have names starting with '_' are treated as abstract
+        # base classes that will never be instantiated because they do not correspond to a DALI frame."  An application
+        # (or the library itself) deriving such a private helper from a concrete 16-bit command must not change what
+        # the standard's frame decodes to.
+        made = 0
+        for row in T.ROWS:
+            if row.bits != 16 or row.form not in ("gear-std", "gear-special"):
+                continue
+            cls = lib_class(row)
+            if cls is None or made % 7:
+                made += 1
+                continue
+            made += 1
+            try:
+                type("_VerifPrivate" + cls.__name__, (cls,), {"sendtwice": not cls.sendtwice, "response": None, "__module__": cls.__module__})
+            except Exception as e:  # noqa
+                res.violation("C03:private-subclass-raised:" + short_name(row), {"row": row.name, "op": "private-subclass"}, repr(e))
+        n = 0
+        for row in T.ROWS:
+            cls = lib_class(row)
+            if cls is None or row.bits != 16:
+                continue
+            for i in T.sample_indices(row, 6, 1):
+                args = T.args_at(row, i)
+                n += 1
+                for sig, msg in check_frame(row, cls, args, mods):
+                    res.violation(sig + ":after-private-subclass", {"row": row.name, "op": "frame", "args": args, "after_private_subclasses": True},
+                                  msg + " (after underscore-named helper subclasses of concrete commands were defined)")
+        res.count(n)
+        res.nontrivial(n=n)
+        res.label("after-private-subclasses", n)
+        return res
     if kind == "flags-after-use":
         n = decode_storm(mods)
         res.extra["decodes_before_flag_recheck"] = n
@@ -420,6 +453,7 @@ def run(ctx):
     # biggest shards first so the pool drains evenly
     shards.sort(key=lambda s: -(s[3] - s[2] if s[0] == "range" else len(s[2]) if s[0] == "list" else 0))
     shards.insert(0, ("flags-after-use", None))
+    shards.insert(1, ("private-subclasses", None))
     ctx.pmap(_shard, shards)
     res = ctx.result
     res.exhaustive = not ctx.quick
